@@ -509,6 +509,9 @@ def run(ctx):
     for case, why in viol:
         ctx.fail(case, why, "injection")
     ctx.notes["injection"] = {k: (v if not isinstance(v, list) else v[:20]) for k, v in stats.items()}
+    # documents whose reading fans out (no pattern involved): reading time against document length
+    for case, why in regex_injection.evaluate_fanout(4.0 if ctx.quick else 10.0, ctx.quick):
+        ctx.fail(case, why, "fanout")
     ctx.evaluations += stats["positions"] + stats["pump_loads"]
     ctx.traces += stats["positions"] + stats["pump_loads"]
     ctx.sample({"kind": "pattern", "pattern": plist[0], "nfa_states": models[0]["nstates"], "edges": len(models[0]["edges"])})
@@ -520,7 +523,7 @@ def run(ctx):
 
 def replay(info):
     c = info["case"]
-    if info["kind"] == "injection":
+    if info["kind"] in ("injection", "fanout"):
         from . import regex_injection
         return regex_injection.replay(c, CAP)
     t = Timer()
